@@ -526,12 +526,13 @@ class UnitSystemManager(Singleton):
             if there is no current unit system, the returned value and unit are the same as
             the input.
         """
-        from barril.units import Scalar
-
-        ret_tuple = self.ConvertToCurrent(
+        value, unit = self.ConvertToCurrent(
             scalar.GetCategory(), scalar.GetUnit(), scalar.GetValue(), unit_database
         )
-        return Scalar(*ret_tuple)
+        if unit == scalar.GetUnit():
+            return scalar.CreateCopy(value=value)
+        # Note: creating a copy so that the category of the scalar is kept.
+        return scalar.CreateCopy(value=value, unit=unit)
 
 
 class _IdentityWrap:
